@@ -48,6 +48,7 @@ def cases(tier):
     yield dict(kind="tags", directive="rw", tier=tier)
     yield dict(kind="tags-multi", tier=tier)
     yield dict(kind="pairdir", tier=tier)
+    yield dict(kind="tags-dup", tier=tier)
     yield dict(kind="start", tier=tier)
     for i in range(4):
         yield dict(kind="lig", part=i, tier=tier)
@@ -136,6 +137,49 @@ def check_pair_directives(case):
     return viols, evals, keys
 
 
+def check_tags_dup(case):
+    """residue directives on a molecule whose residue ids restart (S1 S2 B1 B2): the residue name decides"""
+    from polyply.src.build_file_parser import read_build_file
+    viols, evals, keys = [], 0, []
+    sysd = dict(types=["DUPB", "W"], molecules=[("DUPB", 1), ("W", 1), ("DUPB", 1)], box=[5.0, 5.0, 5.0])
+    resinfo = [("S", 1), ("S", 2), ("B", 1), ("B", 2)]
+    with H.tempdir() as d:
+        base = read_top(d, sysd)
+        snap0 = snapshot(base)
+        for a, b in ((0, 3), (0, 1), (2, 3)):
+            for resname in ("S", "B"):
+                for s_, t in itertools.combinations_with_replacement(range(0, 4), 2):
+                    for directive in ("sphere", "rw"):
+                        if directive == "sphere":
+                            text = f"[ molecule ]\nDUPB {a} {b}\n[ sphere ]\n{resname} {s_} {t} in 1.0 2.0 3.0 4.5\n"
+                            key = "restraints"
+                        else:
+                            text = f"[ molecule ]\nDUPB {a} {b}\n[ rw_restriction ]\n{resname} {s_} {t} 1.0 0.0 0.0 60.0\n"
+                            key = "rw_options"
+                        top = copy.deepcopy(base)
+                        evals += 1
+                        case1 = dict(kind="tagsdup1", text=text)
+                        try:
+                            read_build_file(text.splitlines(), top, top.molecules)
+                        except Exception as exc:  # noqa
+                            viols.append(crash_violation(exc, case1, assertion="build-file-readable", tags=["restarting-resids"]))
+                            continue
+                        want = {(mi, r) for mi in (0, 2) if a <= mi < b for r, (rn, resid) in enumerate(resinfo) if rn == resname and s_ <= resid < t}
+                        snap = snapshot(top)
+                        got = {k for k, v in snap.items() if key in v}
+                        if got != want and len(viols) < 20:
+                            viols.append(dict(assertion="tag-selects-exactly-named-range", tags=["restarting-resids", f"directive:{directive}"],
+                                              message=f"{text!r}: tagged {sorted(got)} expected {sorted(want)}", case=case1, detail={}))
+                        for k, v in snap.items():
+                            if k in want:
+                                v = {kk: vv for kk, vv in v.items() if kk != key}
+                            if v != snap0[k] and len(viols) < 20:
+                                viols.append(dict(assertion="other-nodes-untouched", tags=["restarting-resids"], message=f"{text!r}: node {k} changed", case=case1, detail={}))
+                        if want:
+                            keys.append(f"dup:{directive}:{a}:{b}:{resname}:{s_}:{t}")
+    return viols, evals, keys
+
+
 def check_tags_multi(case):
     from polyply.src.build_file_parser import read_build_file
     viols, evals, keys = [], 0, []
@@ -220,36 +264,38 @@ def spec_strings(molname, idx, resname, resid):
 def check_start(case):
     from polyply.src.gen_coords import find_starting_node_from_spec
     viols, evals, keys = [], 0, []
-    names = {"CH4": [0, 3, 4], "W": [1, 2]}
-    resinfo = {"CH4": [("S", 1), ("B", 2), ("S", 3), ("B", 4)], "W": [("W", 1)]}
-    for zero in (False, True):
+    sys_dup = dict(SYS, types=["DUPB", "W"], molecules=[("DUPB", 1), ("W", 2), ("DUPB", 2)])
+    # passes: the interleaved topology; the same with residue ids counted from 0 (as after -split, or in a 0-based itp);
+    # a main molecule whose residue ids restart (S1 S2 B1 B2: name and id together identify the residue)
+    for label, sysd, main, main_res in (("plain", SYS, "CH4", [("S", 1), ("B", 2), ("S", 3), ("B", 4)]),
+                                        ("zero", dict(SYS, resid_from_zero=True), "CH4", [("S", 0), ("B", 1), ("S", 2), ("B", 3)]),
+                                        ("dup", sys_dup, "DUPB", [("S", 1), ("S", 2), ("B", 1), ("B", 2)])):
+        names = {main: [0, 3, 4], "W": [1, 2]}
+        resinfo = {main: main_res, "W": [("W", 0 if label == "zero" else 1)]}
         with H.tempdir() as d:
-            # second pass: the same topology with residue ids counted from 0 (as after -split, or in a 0-based itp)
-            base = read_top(d, dict(SYS, resid_from_zero=True) if zero else SYS)
-            if zero:
-                resinfo = {k: [(rn, rid - 1) for rn, rid in v] for k, v in resinfo.items()}
-            for molname, idx in (("CH4", 0), ("CH4", 3), ("CH4", 4), ("W", 2)):
+            base = read_top(d, sysd)
+            for molname, idx in ((main, 0), (main, 3), (main, 4), ("W", 2)):
                 for r, (resname, resid) in enumerate(resinfo[molname]):
                     for use, spec in spec_strings(molname, idx, resname, resid):
                         if not use[0] and not use[1]:
                             continue       # names no molecule at all
                         top = copy.deepcopy(base)
                         evals += 1
-                        case1 = dict(kind="start1", spec=spec)
+                        case1 = dict(kind="start1", spec=spec, label=label)
                         try:
                             got = find_starting_node_from_spec(top, [spec])
                         except Exception as exc:  # noqa
-                            viols.append(crash_violation(exc, case1, assertion="start-spec-accepted"))
+                            viols.append(crash_violation(exc, case1, assertion="start-spec-accepted", tags=[f"pass:{label}"]))
                             continue
                         mols = [idx] if use[1] else names[molname]
                         want = {mi: None for mi in range(NMOL)}
                         for mi in mols:
-                            mname = "CH4" if mi in names["CH4"] else "W"
+                            mname = main if mi in names[main] else "W"
                             cands = [rr for rr, (rn, rid) in enumerate(resinfo[mname]) if (not use[2] or rn == resname) and (not use[3] or rid == resid)]
                             want[mi] = cands[0] if cands else None
                         if got != want and len(viols) < 20:
-                            viols.append(dict(assertion="start-selects-as-written", tags=[], message=f"-start {spec!r}: {got} expected {want}", case=case1, detail={}))
-                        keys.append("start:" + spec)
+                            viols.append(dict(assertion="start-selects-as-written", tags=[f"pass:{label}"], message=f"-start {spec!r} ({label}): {got} expected {want}", case=case1, detail={}))
+                        keys.append(f"start:{label}:" + spec)
     return viols, evals, keys
 
 
@@ -425,7 +471,7 @@ def check_split_run(case):
     return viols, evals, keys
 
 
-FUNCS = {"pairdir": check_pair_directives, "tags": check_tags, "tags-multi": check_tags_multi, "start": check_start, "lig": check_lig, "split": check_split,
+FUNCS = {"tags-dup": check_tags_dup, "pairdir": check_pair_directives, "tags": check_tags, "tags-multi": check_tags_multi, "start": check_start, "lig": check_lig, "split": check_split,
          "split-run": check_split_run}
 
 
@@ -433,7 +479,7 @@ def run_case(case):
     kind = case["kind"]
     if kind not in FUNCS:
         # replay of single sub-cases is done by re-running the owning family (cheap) and filtering
-        fam = {"tags1": "tags", "tagsm1": "tags-multi", "pairdir1": "pairdir", "start1": "start", "lig1": "lig", "split1": "split", "splitrun1": "split-run"}[kind]
+        fam = {"tags1": "tags", "tagsm1": "tags-multi", "pairdir1": "pairdir", "tagsdup1": "tags-dup", "start1": "start", "lig1": "lig", "split1": "split", "splitrun1": "split-run"}[kind]
         out = []
         for part in range(4 if fam == "lig" else 1):
             c = dict(kind=fam, tier="quick", part=part, directive="sphere" if case.get("key") != "rw_options" else "rw")
